@@ -113,7 +113,20 @@ fn crafted_cbor() -> Vec<Vec<u8>> {
         out.push(nest(&[0xc0], depth, &[0x00]));
         out.push(nest(&[0x9f], depth, &[0x00]));
         out.push(nest(&[0x82, 0x00], depth, &[0x00]));
+        // nesting through map KEY position (a container as the key of the enclosing map),
+        // truncated and well-formed; arrays as keys; alternating array/map-key levels
+        out.push(nest(&[0xa1], depth, &[0x00]));
+        let mut wf = nest(&[0xa1], depth.min(MAX_INPUT / 2 - 2), &[0x00]);
+        let levels = wf.len() - 1;
+        wf.extend(std::iter::repeat(0x00).take(levels));
+        out.push(wf);
+        out.push(nest(&[0xa1, 0x81], depth, &[0x00]));
+        out.push(nest(&[0x81, 0xa1], depth, &[0x00]));
+        out.push(nest(&[0xa2, 0x00, 0x00], depth, &[0x01]));
+        out.push(nest(&[0xbf], depth, &[0x00]));
+        out.push(nest(&[0xa1, 0xc1], depth, &[0x00]));
     }
+    out.push(vec![0xa1; MAX_INPUT]);
     out.push(vec![0x81; MAX_INPUT]);
     out.push(vec![0x00; MAX_INPUT]);
     out.push(vec![0xff; MAX_INPUT]);
